@@ -211,6 +211,18 @@ def handle (req : Json) : Json :=
         let v ← (a[1]!).getNat?
         pure (d, v))
       return Json.mkObj [("policy", Json.arr ((Func.policy rs).map (fun (p : String × Nat) => Json.arr #[toJson p.1, toJson p.2])).toArray)]
+    | "inline_req" =>
+      let rJ ← req.getObjValAs? (Array Json) "imports"
+      let imps ← rJ.toList.mapM (fun j => do
+        let a ← fromJson? (α := Array Json) j
+        let d ← (a[0]!).getStr?
+        let v ← (a[1]!).getNat?
+        pure (d, v))
+      let ksJ ← req.getObjValAs? (Array String) "pass"
+      let ks := ksJ.toList.map (fun s => if s == "optional" then InternalReq.Kind.optional
+        else if s == "seq" then InternalReq.Kind.seq else InternalReq.Kind.tensor)
+      return Json.mkObj [("req", Json.arr ((InternalReq.inlineReq imps ks).map
+        (fun (p : String × Nat) => Json.arr #[toJson p.1, toJson p.2])).toArray)]
     | "intro_req" =>
       let ksJ ← req.getObjValAs? (Array String) "kinds"
       let ks ← ksJ.toList.mapM (fun s => match s with
